@@ -398,3 +398,15 @@ Definition sys_run (n : Z) (w : sys) (sch : list action) : sys := fold_left (sys
     [decided_value] (itself possibly Python's None). *)
 Definition report (w : sys) (i : Z) : option (option Z) :=
   if decided (nodes w i) then Some (dec_v (nodes w i)) else None.
+
+(** Monomorphic constructors used by the harness when it writes case files
+    (they spare Coq the inference of implicit type arguments). *)
+Definition SZ (z : Z) : option Z := Some z.
+Definition NZ : option Z := None.
+Definition SB (n m : Z) : option ballot := Some (n, m).
+Definition NB : option ballot := None.
+Definition RSP (f : Z) (b : option ballot) (v : option Z) : resp := (f, b, v).
+Definition ZZ (a b : Z) : Z * Z := (a, b).
+Definition ZOZ (a : Z) (b : option Z) : Z * option Z := (a, b).
+Definition P1E (k : Z) (rs : list resp) : Z * list resp := (k, rs).
+Definition RS (i : Z) (inp : pin) (outs : list pout) (o : pobs) : rec_step := (i, inp, outs, o).
